@@ -107,8 +107,13 @@ double gp_frandom(GPRandomState* state)
 
 int32_t gp_random_range(GPRandomState* state, int32_t min, int32_t max)
 {
-    if (max - min > 0)
-        return  (int32_t)pcg32_boundedrand_r((pcg32_random_t*)state,(uint32_t)( max - min + 1)) + min;
+    if (max >= min) { // unsigned span: no signed overflow, min == max yields min
+        const uint32_t span = (uint32_t)max - (uint32_t)min + 1; // 0 means all 2^32 values
+        const uint32_t r = span != 0 ?
+            pcg32_boundedrand_r((pcg32_random_t*)state, span) :
+            pcg32_random_r((pcg32_random_t*)state);
+        return (int32_t)((uint32_t)min + r);
+    }
     else
         return -(int32_t)pcg32_boundedrand_r((pcg32_random_t*)state,(uint32_t)(-max + min - 1)) + min;
 }
